@@ -143,6 +143,11 @@ inductive Ty
   /-- a validated type (`validated(...)`, `bounded(...)`): the base annotation and the index of the
   value predicate in `Env.pred` -/
   | valid (base : Ty) (p : Nat)
+  /-- the abstract collection generics `MutableSequence[t]`, `MutableSet[t]`, `MutableMapping[k, v]`
+  (and, by the same token, every container annotation other than `List/Set/Dict/Tuple[...]`, e.g.
+  `KeyedList[...]`): `check_type` looks at the container class only, and the class itself cannot be
+  instantiated (`type_instantiate` raises TypeError) -/
+  | mseq (t : Ty) | mset (t : Ty) | mmap (k v : Ty)
   deriving DecidableEq, Repr
 
 structure AttrSpec where
@@ -227,17 +232,28 @@ def conforms (E : Env) : Ty → Val → Bool
   | .dict k v, .dict kvs => kvs.all (fun k' v' => conforms E k k' && conforms E v v')
   | .spec c, .inst d _ => E.isSub d c
   | .valid b p, v => conforms E b v && E.pred p v
+  | .mseq _, .list _ => true          -- `isinstance(value, MutableSequence)`: the items are not looked at
+  | .mset _, .set _ => true
+  | .mmap _ _, .dict _ => true
   | _, _ => false
 
 /-- `attr_spec.is_collection` (`type_match(type, MutableSequence / MutableMapping / MutableSet)`) -/
 def Ty.isCollection : Ty → Bool
   | .list _ | .set _ | .dict _ _ => true
+  | .mseq _ | .mset _ | .mmap _ _ => true
+  | _ => false
+
+/-- the annotation is a container class `check_type` does not look inside and `type_instantiate` cannot create -/
+def Ty.isAbstract : Ty → Bool
+  | .mseq _ | .mset _ | .mmap _ _ => true
   | _ => false
 
 /-- `get_collection_item_type` -/
 def Ty.itemTy : Ty → Ty
   | .list t | .set t => t
   | .dict _ v => v
+  | .mseq t | .mset t => t
+  | .mmap _ v => v
   | _ => .any
 
 /-- direct spec-class members (`get_spec_class_for_type` on each union member) -/
@@ -271,6 +287,9 @@ def Ty.ctor : Ty → Ctor
   | .lit _ => .uncallable
   | .any => .uncallable
   | .valid _ _ => .noinst
+  | .mseq _ => .uncallable            -- `collections.abc.MutableSequence()`: "Can't instantiate abstract class"
+  | .mset _ => .uncallable
+  | .mmap _ _ => .uncallable
 
 /-- the class whose attributes the generated helper accepts as keywords
 (`with_spec_attrs_for(attr_spec.type)`: only when the annotation itself is a spec class) -/
@@ -509,6 +528,23 @@ def prepareAttrValue (E : Env) : Nat → Val → AttrSpec → Val → Kw → Exc
 def collPrepare (E : Env) : Nat → Val → AttrSpec → Val → Except Err Val
   | 0, _, _, _ => .error .runtimeError
   | n+1, inst, sp, v =>
+    if sp.ty.isAbstract then
+      -- `_create_collection()` raises TypeError for an abstract container class, so only a value that already is
+      -- an instance of the class gets through (no None / MISSING, no rebuild, no item preparer); its items are
+      -- then re-inserted one by one through the checking inserter (`elif self.collection: self._prepare_items()`):
+      -- this pass is the only thing that looks at the items of such a container
+      if v = NONE || v = MISSING then .error .typeError
+      else if !conforms E sp.ty v then .error .typeError
+      else if !nonEmptyColl v then .ok v
+      else if sp.itemPrep.isSome then .error .typeError
+      else match sp.ty, v with
+        -- `self.add_items(self.collection)`: every entry is re-inserted (`replace=True`: the entry it overwrites
+        -- plays no part) through the checking inserter
+        | .mmap kt vt, .dict kvs => addItemsDict E n inst sp kt vt kvs .nil
+        | .mset _, .set xs => (prepItems E n inst sp xs .nil).map fun ys => .set (dedupVals ys .nil)
+        | _, .list xs => (prepItems E n inst sp xs .nil).map .list
+        | _, _ => .error .typeError
+    else
     let v := normNone sp.ty v
     if !conforms E sp.ty v || (nonEmptyColl v && sp.itemPrep.isSome) then
       match sp.ty with
@@ -525,6 +561,20 @@ def collPrepare (E : Env) : Nat → Val → AttrSpec → Val → Except Err Val
         | none => .error .typeError
         | some items => (addItemsSeq E n inst sp items .nil).map .list
     else .ok v        -- `_prepare_items` re-inserts every (conforming) item unchanged
+
+/-- `_prepare_items` of sequences and sets: `transform_item(index | value, self.prepare_item)` for every item, i.e.
+`mutate_value(old_item, transform=prepare_item, constructor=item_constructor, expected_type=item_type)` (the
+default `prepare_item` is the identity when there is no item preparer), then the checking `_inserter` puts the
+result back in place. -/
+def prepItems (E : Env) : Nat → Val → AttrSpec → Vals → Vals → Except Err Vals
+  | 0, _, _, _, _ => .error .runtimeError
+  | _, _, _, .nil, acc => .ok acc
+  | n+1, inst, sp, .cons x xs, acc =>
+    match mutateValue E n x { ty := some sp.ty.itemTy, transform := some (fun v => v) } with
+    | .error e => .error e
+    | .ok y =>
+      if !conforms E sp.ty.itemTy y then .error .valueError
+      else prepItems E n inst sp xs (acc.snoc y)
 
 /-- `add_items` of sequences and sets: `add_item(item)` for every item
 (`mutate_value(MISSING, new_value=item, prepare=prepare_item, replace=True, …)`, then the
